@@ -1,5 +1,18 @@
+// Emits the cfg that switches the hooks on and generates the list of engine modules, compiled
+// straight from the repository's working tree (default /repo; WALLEYE_REPO overrides it for runs
+// against a snapshot - registered checks never set it).
+use std::io::Write;
+
 fn main() {
     println!("cargo:rustc-cfg=walleye_verif");
     println!("cargo:rustc-check-cfg=cfg(walleye_verif)");
     println!("cargo:rerun-if-changed=build.rs");
+    println!("cargo:rerun-if-env-changed=WALLEYE_REPO");
+    let repo = std::env::var("WALLEYE_REPO").unwrap_or_else(|_| "/repo".to_string());
+    let out = std::path::PathBuf::from(std::env::var("OUT_DIR").unwrap()).join("engine_mods.rs");
+    let mut f = std::fs::File::create(out).unwrap();
+    for m in ["board", "draw_table", "engine", "evaluation", "move_generation", "search", "time_control", "uci", "utils", "verif", "zobrist"] {
+        writeln!(f, "#[path = \"{}/src/{}.rs\"]\nmod {};", repo, m, m).unwrap();
+        println!("cargo:rerun-if-changed={}/src/{}.rs", repo, m);
+    }
 }
